@@ -151,6 +151,23 @@ def run(ck, prog):
     conv = cfg.blocks_calling(eb, lambda c: c.endswith("symbol_to_document_symbol"))
     nexts = [i for i, t in eb.calls() if re.search(r"Iterator>::next$", Body.callee(t) or "")]
     skip = any(cfg.path_exists(eb, n, lambda x: x == n, avoid=conv) is not None for n in nexts)
+    closure_form = False
+    if not conv:
+        # iterator form: iter.filter_map(|id| symbol_to_document_symbol(.., symbol(id))).collect()
+        for i, t in eb.calls():
+            if not re.search(r"Iterator::(filter_map|map|flat_map)$", Body.callee(t) or ""):
+                continue
+            if not any(x[0] == "call" and x[1].endswith("SymbolMap::iter_symbols_in_file") for x in prov.origins(eb, t["args"][0])):
+                continue
+            for ga in (t["f"].get("args") or []):
+                mb = prog.body(ga.get("closure")) if isinstance(ga, dict) and ga.get("closure") else None
+                if mb is None:
+                    continue
+                cv = cfg.blocks_calling(mb, lambda c: c.endswith("symbol_to_document_symbol"))
+                if cv and cfg.path_exists(mb, 0, lambda x: mb.term(x)["k"] == "return", avoid=cv, include_src=True) is None:
+                    closure_form = True
+    if closure_form:
+        conv, skip = {-1}, False
     ck.ob("R18.2", "all-symbols-offered", okf and not skip and bool(conv),
           "every symbol of the requested file is passed to symbol_to_document_symbol",
           msg="document_symbol::exec does not offer every symbol of the file's list to the outline builder")
